@@ -181,6 +181,11 @@ func (s *socket) onOpen() {
 	)
 
 	if i := s.server.Opts().InitialPacket(); i != nil {
+		// the configured reader is shared by all sessions and encoding consumes
+		// it: every session sends its own copy
+		if b, ok := i.(types.BufferInterface); ok {
+			i = b.Clone()
+		}
 		s.sendPacket(packet.MESSAGE, i, nil, nil)
 	}
 
